@@ -123,7 +123,8 @@ def add_metrics(draw, spec, max_met=4):
 
 
 @st.composite
-def add_conns(draw, spec, max_choices=2, max_side=3, allow_grp=True, small=False, start_bias=2, min_choices=None):
+def add_conns(draw, spec, max_choices=2, max_side=3, allow_grp=True, small=False, start_bias=2, min_choices=None,
+              grp_den=3):
     gens = gen_nodes(spec)
     n_cc = draw(st.integers(1, max_choices)) if min_choices is None else draw(st.integers(min_choices, max_choices))
     alphabet = DEG_ALPHABET
@@ -141,7 +142,7 @@ def add_conns(draw, spec, max_choices=2, max_side=3, allow_grp=True, small=False
                 spec['edges'].append([parent, nm])
                 conn_names.append(nm)
             items = list(conn_names)
-            if allow_grp and n_side >= 2 and draw(st.integers(0, 3)) == 0:
+            if allow_grp and n_side >= 2 and draw(st.integers(0, grp_den)) == 0:
                 k = draw(st.integers(2, n_side))
                 members = conn_names[:k]
                 rep = spec['nodes'][members[0]]['rep']
